@@ -5,6 +5,16 @@ import OH.Proofs.EvalSpecSel
 C01 refinement, dated ranges: the model's helpers in terms of the specification's vocabulary
 (`dateInstance`, `shift`), under the hypothesis `BoundOK` (well-formed date, well-formed weekday
 shift, day offset within ±100 000 days — nothing saturates) and for years 0 … 20 000.
+
+The search windows of `MonthdayRange::Date` are centred on the year the bound has to come from
+(`yearBeforeOffset d o` = the year of `d - day offset`).  The window theorems are generic in the
+windows, so that the filter (5 + 5 years) and the hint (13 + 13 years) share them:
+ * `openOn_widen`/`pairSpec_run`: the pairing on two ADEQUATE runs of years = the pairing on all years;
+ * `dated_window_eq` (class c, two yearless bounds): any runs reaching two years below and above the two
+   centres give the specification's `datedOk`; `dated_yearless_eq` is the filter's instance;
+ * `single_window_iff` (class b, a single day without a year): the years `c-1 … c+8` around the year `c` of
+   `d - end offset` (eight years always contain a February 29th: `day_exists_late`); `dated_single_eq`.
+No year-locality, no bound on the shift relative to a year, no condition on the length of an occurrence.
 -/
 namespace OH.Proofs.EvalSpec
 open OH.Model OH.Model.Cal
@@ -78,27 +88,57 @@ theorem firstEndFrom_eq {e : DateSpec} {eo : DateOffset} (h : BoundOK e eo) (sta
       · simp [hge]
       · simp only [hge, if_false, decide_false]; exact ih'
 
-theorem yearsAround_1_1 (y : Int) : yearsAround y 1 1 = [y - 1, y, y + 1] := by
-  unfold yearsAround
-  simp only [List.range_succ, List.range_zero, List.nil_append, List.cons_append, List.map_cons, List.map_nil]
-  congr 1
-  · omega
-  · congr 1
-    · omega
-    · congr 1; omega
 
-theorem yearsAround_2_2 (y : Int) : yearsAround y 2 2 = [y - 2, y - 1, y, y + 1, y + 2] := by
-  unfold yearsAround
-  simp only [List.range_succ, List.range_zero, List.nil_append, List.cons_append, List.map_cons, List.map_nil]
-  congr 1
-  · omega
-  · congr 1
+/-! ### runs of consecutive years -/
+
+/-- the years `a, a+1, …, a+n-1` -/
+def yearRun (a : Int) (n : Nat) : List Int := (List.range n).map (fun (i : Nat) => a + (i : Int))
+
+theorem yearsAround_eq_run (y : Int) (b a : Nat) : yearsAround y b a = yearRun (y - (b : Int)) (b + a + 1) := rfl
+
+theorem mem_yearRun (a : Int) (n : Nat) (k : Int) : k ∈ yearRun a n ↔ a ≤ k ∧ k < a + n := by
+  unfold yearRun
+  simp only [List.mem_map, List.mem_range]
+  constructor
+  · rintro ⟨i, hi, rfl⟩; omega
+  · intro h; exact ⟨(k - a).toNat, by omega, by omega⟩
+
+theorem filterMap_eq_map_of {α β} (F : α → Option β) (T : α → β) (l : List α)
+    (h : ∀ x ∈ l, F x = some (T x)) : l.filterMap F = l.map T := by
+  induction l with
+  | nil => rfl
+  | cons x xs ih =>
+    rw [List.filterMap_cons, h x (by simp), List.map_cons, ih (fun y hy => h y (by simp [hy]))]
+
+theorem run_filterMap {β} (F : Int → Option β) (T : Int → β) (a : Int) (n : Nat)
+    (h : ∀ k, a ≤ k → k < a + n → F k = some (T k)) : (yearRun a n).filterMap F = (yearRun a n).map T :=
+  filterMap_eq_map_of F T _ (fun k hk => by rw [mem_yearRun] at hk; exact h k hk.1 hk.2)
+
+/-- `F` increases from each year to the next on `lo … hi` -/
+def StepMono (F : Int → Int) (lo hi : Int) : Prop := ∀ k, lo ≤ k → k < hi → F k < F (k + 1)
+
+theorem mono_of_step (F : Int → Int) (lo hi : Int) (h : StepMono F lo hi)
+    (a b : Int) (ha : lo ≤ a) (hab : a ≤ b) (hb : b ≤ hi) : F a ≤ F b ∧ (a < b → F a < F b) := by
+  obtain ⟨n, rfl⟩ : ∃ n : Nat, b = a + n := ⟨(b - a).toNat, by omega⟩
+  induction n with
+  | zero => simp
+  | succ n ih =>
+    have ih' := ih (by omega) (by omega)
+    have st := h (a + n) (by omega) (by omega)
+    rw [show a + ((n + 1 : Nat) : Int) = a + n + 1 by omega]
+    constructor
     · omega
-    · congr 1
-      · omega
-      · congr 1
-        · omega
-        · congr 1; omega
+    · intro _; omega
+
+theorem run_map_sorted (T : Int → Int) (lo hi a : Int) (n : Nat) (m : StepMono T lo hi) (h1 : lo ≤ a)
+    (h2 : a + n ≤ hi + 1) : ((yearRun a n).map T).Pairwise (· < ·) := by
+  unfold yearRun
+  rw [List.map_map, List.pairwise_map]
+  refine List.Pairwise.imp_of_mem ?_ (List.pairwise_lt_range (n := n))
+  intro i j hin hjn hij
+  simp only [List.mem_range] at hin hjn
+  simp only [Function.comp]
+  exact (mono_of_step T lo hi m (a + i) (a + j) (by omega) (by omega) (by omega)).2 (by omega)
 
 /-! ### days inside a year -/
 
@@ -120,134 +160,106 @@ theorem inY_le_of_lt {a b p q : Int} (hp : InY a p) (hq : InY b q) (h : p < q) :
   · have := inY_lt hab hq hp; omega
   · omega
 
-/-! ### class (c): both bounds without a year — the window `y-1 … y+1` against all candidate years -/
-
-/-- The window `y-2 … y+2` is adequate for day `d` (of year `y`) and the projections `S`, `E` of the two
-bounds on the years `y-w … y+w` the specification looks at:
- * successive projections increase;
- * the start projected on `y+2` is after `d`;
- * the end projected on `y+3` is not before `d`;
- * some start of the window is at or before `d` and after the end projected on `y-3` (then so is the
-   latest start at or before `d`). -/
-structure WindowOK (S E : Int → Int) (y d : Int) (w : Nat) : Prop where
-  monoS : ∀ k, y - w ≤ k → k < y + w → S k < S (k + 1)
-  monoE : ∀ k, y - w ≤ k → k < y + w → E k < E (k + 1)
-  w1 : d < S (y + 2)
-  w3 : d ≤ E (y + 3)
-  w4 : ∃ k0, y - 2 ≤ k0 ∧ k0 ≤ y + 1 ∧ S k0 ≤ d ∧ E (y - 3) < S k0
-
-theorem mono_of_step (F : Int → Int) (lo hi : Int) (h : ∀ k, lo ≤ k → k < hi → F k < F (k + 1))
-    (a b : Int) (ha : lo ≤ a) (hab : a ≤ b) (hb : b ≤ hi) : F a ≤ F b ∧ (a < b → F a < F b) := by
-  obtain ⟨n, rfl⟩ : ∃ n : Nat, b = a + n := ⟨(b - a).toNat, by omega⟩
-  induction n with
-  | zero => simp
-  | succ n ih =>
-    have ih' := ih (by omega) (by omega)
-    have st := h (a + n) (by omega) (by omega)
-    rw [show a + ((n + 1 : Nat) : Int) = a + n + 1 by omega]
-    constructor
-    · omega
-    · intro _; omega
-
-/-- The pairing of the projections on the years `y-2 … y+2` selects the same days as "some start
-instance at or before `d`, on any of the years `y-w … y+w`, has no end instance between it and `d`" —
-provided the window is adequate (`WindowOK`). -/
-theorem window_pair_iff (S E : Int → Int) (y d : Int) (w : Nat) (hw : 3 ≤ w) (ok : WindowOK S E y d w) :
-    PairSpec [S (y - 2), S (y - 1), S y, S (y + 1), S (y + 2)]
-        [E (y - 2), E (y - 1), E y, E (y + 1), E (y + 2)] d ↔
-      ∃ k, y - w ≤ k ∧ k ≤ y + w ∧ S k ≤ d ∧ ∀ j, y - w ≤ j → j ≤ y + w → ¬ (S k ≤ E j ∧ E j < d) := by
-  have mS := mono_of_step S (y - w) (y + w) ok.monoS
-  have mE := mono_of_step E (y - w) (y + w) ok.monoE
-  have hgt := ok.w1
-  unfold PairSpec
-  simp only [List.mem_cons, List.not_mem_nil, or_false, exists_eq_or_imp, forall_eq_or_imp, exists_eq_left,
-    forall_eq]
+/-- days `n` apart lie in years at most `n / 365 + 1` apart -/
+theorem year_dist {a b p q : Int} (hp : InY a p) (hq : InY b q) (n : Nat) (h1 : p - q ≤ n) (h2 : q - p ≤ n) :
+    a - b ≤ n / 365 + 1 ∧ b - a ≤ n / 365 + 1 := by
+  unfold InY at *
   constructor
-  · rintro (h | h)
-    · -- some window start qualifies; the later of it and `k0` qualifies on all candidate years
-      obtain ⟨k0, hk0a, hk0b, hk0le, hk0e⟩ := ok.w4
-      have key : ∀ k, (k = y - 2 ∨ k = y - 1 ∨ k = y ∨ k = y + 1 ∨ k = y + 2) → S k ≤ d →
-          (¬ (S k ≤ E (y - 2) ∧ E (y - 2) < d) ∧ ¬ (S k ≤ E (y - 1) ∧ E (y - 1) < d) ∧
-            ¬ (S k ≤ E y ∧ E y < d) ∧ ¬ (S k ≤ E (y + 1) ∧ E (y + 1) < d) ∧
-            ¬ (S k ≤ E (y + 2) ∧ E (y + 2) < d)) →
-          ∃ k, y - w ≤ k ∧ k ≤ y + w ∧ S k ≤ d ∧ ∀ j, y - w ≤ j → j ≤ y + w → ¬ (S k ≤ E j ∧ E j < d) := by
-        intro k hk hle hno
-        -- k' = max k k0
-        obtain ⟨k', hk'1, hk'2, hk'le, hkk', hk0k'⟩ : ∃ k', y - 2 ≤ k' ∧ k' ≤ y + 2 ∧ S k' ≤ d ∧ S k ≤ S k' ∧ S k0 ≤ S k' := by
-          by_cases hc : k ≤ k0
-          · exact ⟨k0, hk0a, by omega, hk0le, (mS k k0 (by omega) hc (by omega)).1, Int.le_refl _⟩
-          · exact ⟨k, by omega, by omega, hle, Int.le_refl _, (mS k0 k (by omega) (by omega) (by omega)).1⟩
-        refine ⟨k', by omega, by omega, hk'le, fun j hj1 hj2 => ?_⟩
-        by_cases hj : j < y - 2
-        · -- an end of an earlier year lies before the start `k0`
-          have a := (mE j (y - 3) hj1 (by omega) (by omega)).1
-          omega
-        · by_cases hj' : y + 2 < j
-          · have a := (mE (y + 3) j (by omega) (by omega) hj2).1
-            have := ok.w3
-            omega
-          · have : j = y - 2 ∨ j = y - 1 ∨ j = y ∨ j = y + 1 ∨ j = y + 2 := by omega
-            rcases this with rfl | rfl | rfl | rfl | rfl
-            · have := hno.1; omega
-            · have := hno.2.1; omega
-            · have := hno.2.2.1; omega
-            · have := hno.2.2.2.1; omega
-            · have := hno.2.2.2.2; omega
-      rcases h with ⟨h1, h2⟩ | ⟨h1, h2⟩ | ⟨h1, h2⟩ | ⟨h1, h2⟩ | ⟨h1, h2⟩
-      · exact key (y - 2) (by omega) h1 h2
-      · exact key (y - 1) (by omega) h1 h2
-      · exact key y (by omega) h1 h2
-      · exact key (y + 1) (by omega) h1 h2
-      · exact key (y + 2) (by omega) h1 h2
-    · -- the leftover case needs the start of year y+2 at or before d
+  · by_cases h : a ≤ b
+    · omega
+    · have := (yearStart_add_le (b + 1) (a - b - 1).toNat).1
+      rw [show b + 1 + ((a - b - 1).toNat : Int) = a by omega] at this
+      omega
+  · by_cases h : b ≤ a
+    · omega
+    · have := (yearStart_add_le (a + 1) (b - a - 1).toNat).1
+      rw [show a + 1 + ((b - a - 1).toNat : Int) = b by omega] at this
+      omega
+
+theorem yearStart_step (a b : Int) (h : b = a + 1) :
+    365 ≤ yearStart b - yearStart a ∧ yearStart b - yearStart a ≤ 366 := by
+  subst h
+  have := yearStart_succ a
+  have := yearLen_cases a
+  omega
+
+/-! ### the pairing on two windows of years against the pairing on all years
+
+`S k`, `E k` are the shifted instances of the two bounds on year `k`.  The implementation pairs the
+starts of the years `a1 … a2` with the ends of the years `b1 … b2`; the specification looks at a larger
+set of years.  Both select the same days as soon as each window is ADEQUATE for the day: its first start
+is at or before `d`, its last start after `d`, its first end before `d`, its last end at or after `d`. -/
+
+/-- `d` is selected by the pairing of the starts `S k`, `a1 ≤ k ≤ a2`, with the ends `E j`, `b1 ≤ j ≤ b2`:
+some start at or before `d` has no end between it and `d` -/
+def OpenOn (S E : Int → Int) (a1 a2 b1 b2 d : Int) : Prop :=
+  ∃ k, a1 ≤ k ∧ k ≤ a2 ∧ S k ≤ d ∧ ∀ j, b1 ≤ j → j ≤ b2 → ¬ (S k ≤ E j ∧ E j < d)
+
+structure Adequate (S E : Int → Int) (a1 a2 b1 b2 d : Int) : Prop where
+  sLo : S a1 ≤ d
+  sHi : d < S a2
+  eLo : E b1 < d
+  eHi : d ≤ E b2
+
+/-- an adequate window selects the same days as any range of years containing it on which the instances
+increase -/
+theorem openOn_widen (S E : Int → Int) (lo hi a1 a2 b1 b2 d : Int) (mS : StepMono S lo hi)
+    (mE : StepMono E lo hi) (ha : lo ≤ a1 ∧ a1 ≤ a2 ∧ a2 ≤ hi) (hb : lo ≤ b1 ∧ b1 ≤ b2 ∧ b2 ≤ hi)
+    (ok : Adequate S E a1 a2 b1 b2 d) :
+    OpenOn S E a1 a2 b1 b2 d ↔ OpenOn S E lo hi lo hi d := by
+  have MS := mono_of_step S lo hi mS
+  have ME := mono_of_step E lo hi mE
+  constructor
+  · rintro ⟨k, hk1, hk2, hle, hno⟩
+    refine ⟨k, by omega, by omega, hle, fun j hj1 hj2 => ?_⟩
+    by_cases hj : j < b1
+    · have a := (ME j b1 hj1 (by omega) (by omega)).1
+      have b := hno b1 (by omega) (by omega)
+      have := ok.eLo
+      omega
+    · by_cases hj' : b2 < j
+      · have a := (ME b2 j (by omega) (by omega) hj2).1
+        have := ok.eHi
+        omega
+      · exact hno j (by omega) (by omega)
+  · rintro ⟨k, hk1, hk2, hle, hno⟩
+    have hk : k < a2 := by
+      by_cases h : a2 ≤ k
+      · have := (MS a2 k (by omega) h hk2).1
+        have := ok.sHi
+        omega
+      · omega
+    by_cases hka : a1 ≤ k
+    · exact ⟨k, hka, by omega, hle, fun j hj1 hj2 => hno j (by omega) (by omega)⟩
+    · refine ⟨a1, by omega, by omega, ok.sLo, fun j hj1 hj2 => ?_⟩
+      have a := (MS k a1 hk1 (by omega) (by omega)).1
+      have := hno j (by omega) (by omega)
+      omega
+
+/-- the right-hand side of the pairing theorem on two runs of years -/
+theorem pairSpec_run (S E : Int → Int) (a1 : Int) (na : Nat) (b1 : Int) (nb : Nat) (d : Int)
+    (hna : 1 ≤ na) (sHi : d < S (a1 + na - 1)) :
+    PairSpec ((yearRun a1 na).map S) ((yearRun b1 nb).map E) d ↔
+      OpenOn S E a1 (a1 + na - 1) b1 (b1 + nb - 1) d := by
+  unfold PairSpec OpenOn
+  simp only [List.mem_map, mem_yearRun]
+  constructor
+  · rintro (⟨s, ⟨k, hk, rfl⟩, hle, hno⟩ | ⟨hall, _⟩)
+    · exact ⟨k, by omega, by omega, hle, fun j hj1 hj2 => hno (E j) ⟨j, ⟨by omega, by omega⟩, rfl⟩⟩
+    · have := (hall (S (a1 + na - 1)) ⟨a1 + na - 1, ⟨by omega, by omega⟩, rfl⟩).1
       omega
   · rintro ⟨k, hk1, hk2, hle, hno⟩
     left
-    have hky : k ≤ y + 1 := by
-      by_cases h : y + 1 < k
-      · have := (mS (y + 2) k (by omega) (by omega) hk2).1; omega
-      · omega
-    have n0 := hno (y - 2) (by omega) (by omega)
-    have n1 := hno (y - 1) (by omega) (by omega)
-    have n2 := hno y (by omega) (by omega)
-    have n3 := hno (y + 1) (by omega) (by omega)
-    have n4 := hno (y + 2) (by omega) (by omega)
-    by_cases hk : k < y - 2
-    · -- an earlier start: the start of year y-2 lies between it and d
-      left
-      have h1 := (mS k (y - 2) hk1 (by omega) (by omega)).1
-      obtain ⟨k0, hk0a, hk0b, hk0le, _⟩ := ok.w4
-      have h2 : S (y - 2) ≤ d := by have := (mS (y - 2) k0 (by omega) hk0a (by omega)).1; omega
-      refine ⟨h2, by omega, by omega, by omega, by omega, by omega⟩
-    · have : k = y - 2 ∨ k = y - 1 ∨ k = y ∨ k = y + 1 := by omega
-      rcases this with rfl | rfl | rfl | rfl
-      · left; exact ⟨hle, n0, n1, n2, n3, n4⟩
-      · right; left; exact ⟨hle, n0, n1, n2, n3, n4⟩
-      · right; right; left; exact ⟨hle, n0, n1, n2, n3, n4⟩
-      · right; right; right; left; exact ⟨hle, n0, n1, n2, n3, n4⟩
+    refine ⟨S k, ⟨k, ⟨by omega, by omega⟩, rfl⟩, hle, ?_⟩
+    rintro x ⟨j, hj, rfl⟩
+    exact hno j (by omega) (by omega)
 
-/-- year-locality (every projection stays in the year it is taken on) makes the window adequate -/
-theorem windowOK_of_inY (S E : Int → Int) (y d : Int) (w : Nat) (hw : 3 ≤ w) (hd : InY y d)
-    (hS : ∀ k, y - w ≤ k → k ≤ y + w → InY k (S k))
-    (hE : ∀ k, y - w ≤ k → k ≤ y + w → InY k (E k)) : WindowOK S E y d w where
-  monoS := fun k a b => inY_lt (by omega) (hS k a (by omega)) (hS (k + 1) (by omega) (by omega))
-  monoE := fun k a b => inY_lt (by omega) (hE k a (by omega)) (hE (k + 1) (by omega) (by omega))
-  w1 := inY_lt (by omega) hd (hS (y + 2) (by omega) (by omega))
-  w3 := by have := inY_lt (show y < y + 3 by omega) hd (hE (y + 3) (by omega) (by omega)); omega
-  w4 := ⟨y - 2, by omega, by omega,
-    by have := inY_lt (show y - 2 < y by omega) (hS (y - 2) (by omega) (by omega)) hd; omega,
-    inY_lt (by omega) (hE (y - 3) (by omega) (by omega)) (hS (y - 2) (by omega) (by omega))⟩
-
-/-! ### class (c), concretely -/
+/-! ### class (c): both bounds without a year -/
 
 theorem yearSpan_bounds (so eo : DateOffset) (h1 : -100000 ≤ so.days ∧ so.days ≤ 100000)
     (h2 : -100000 ≤ eo.days ∧ eo.days ≤ 100000) : 3 ≤ yearSpan so eo ∧ yearSpan so eo ≤ 551 := by
   unfold yearSpan
   omega
-
-/-- every shifted instance of the bound on the years `y-w … y+w` stays inside the year it is taken on -/
-def StaysInYear (ds : DateSpec) (o : DateOffset) (after : Bool) (y : Int) (w : Nat) : Prop :=
-  ∀ k, y - w ≤ k → k ≤ y + w → ∀ p, proj ds o after k = some p → InY k p
 
 /-- a well-formed date without a year has an instance on every year 0 … 20 000 -/
 theorem proj_some_yearless (ds : DateSpec) (o : DateOffset) (after : Bool) (hwf : ds.wf = true)
@@ -270,6 +282,12 @@ theorem proj_some_yearless (ds : DateSpec) (o : DateOffset) (after : Bool) (hwf 
         hm1 hm2 hd1 hd2]
       exact ⟨_, rfl⟩
 
+theorem proj_eq_some {ds : DateSpec} {o : DateOffset} {after : Bool} {k P : Int}
+    (h : proj ds o after k = some P) : ∃ p, dateInstance ds k after = some p ∧ shift o p = P := by
+  unfold proj at h
+  rw [Option.map_eq_some_iff] at h
+  exact h
+
 theorem singleInterval_none (s : DateSpec) (so : DateOffset) (e : DateSpec) (eo : DateOffset)
     (h : specYear s = none) : singleInterval s so e eo = .ok none := by
   unfold singleInterval
@@ -291,11 +309,12 @@ theorem filter_of_interval (s : DateSpec) (so : DateOffset) (e : DateSpec) (eo :
     exact ⟨heq, rfl⟩
   · simp only [h, ok_bind, pure_eq_ok]
 
-/-- the generic (windowed) branch of `MonthdayRange::Date::filter` -/
+/-- the generic (windowed) branch of `MonthdayRange::Date::filter`: the starts are looked for around the
+year of `d - start offset`, the ends around the year of `d - end offset` -/
 theorem filter_generic (s : DateSpec) (so : DateOffset) (e : DateSpec) (eo : DateOffset) (d : Int)
     (hsy : specYear s = none) (hns : ¬ (s = e ∧ isFixedDate s = true)) (ss es : List Int)
-    (h1 : boundsOn s so true (yearsAround (year d) 2 2) = .ok ss)
-    (h2 : boundsOn e eo false (yearsAround (year d) 2 2) = .ok es) :
+    (h1 : boundsOn s so true (yearsAround (yearBeforeOffset d so) 2 2) = .ok ss)
+    (h2 : boundsOn e eo false (yearsAround (yearBeforeOffset d eo) 2 2) = .ok es) :
     MonthdayRange.filter (.date s so e eo) d = .ok (isOpenFromIntervals d (intervalsFromBounds ss es)) := by
   have hsi := singleInterval_none s so e eo hsy
   unfold MonthdayRange.filter
@@ -315,82 +334,177 @@ theorem candidateYears_yearless (s e : DateSpec) (w : Nat) (d : Int) (hs : specY
 date without a year on the years 0 … 20 000) -/
 def projT (ds : DateSpec) (o : DateOffset) (after : Bool) (k : Int) : Int := (proj ds o after k).getD 0
 
-/-- Class (c): a dated range whose two bounds carry no year (and that is not a single fixed day):
-the model's filter is the specification's `datedOk` on every day of 1899-12-31 … 9999-12-31 for which
-the window `y-2 … y+2` is adequate (`WindowOK`). -/
-theorem dated_yearless_eq (s : DateSpec) (so : DateOffset) (e : DateSpec) (eo : DateOffset) (d : Int)
+theorem proj_eq_projT (ds : DateSpec) (o : DateOffset) (after : Bool) (hwf : ds.wf = true)
+    (hyl : specYear ds = none) (k : Int) (hk : 0 ≤ k ∧ k ≤ 20000) :
+    proj ds o after k = some (projT ds o after k) := by
+  obtain ⟨p, hp⟩ := proj_some_yearless ds o after hwf hyl k hk
+  simp only [projT, hp, Option.getD_some]
+
+/-! #### position of the instances inside their year -/
+
+theorem monthStart_leap_bounds (leap : Bool) (m : Nat) :
+    monthStart false m ≤ monthStart leap m ∧ monthStart leap m ≤ monthStart false m + 1 := by
+  cases leap
+  · omega
+  · unfold monthStart
+    split <;> simp
+
+theorem monthStart_false_range (m : Nat) : 0 ≤ monthStart false m ∧ monthStart false m ≤ 365 := by
+  unfold monthStart; split <;> simp
+
+/-- position of the clamped instance of `m/dd` inside its year -/
+theorem fixedInstance_pos (y : Int) (m dd : Nat) (after : Bool) (hd2 : dd ≤ 31) :
+    yearStart y + monthStart false m + dd - 3 ≤ fixedInstance y m dd after ∧
+      fixedInstance y m dd after ≤ yearStart y + monthStart false m + dd + 1 := by
+  have hb := monthStart_leap_bounds (isLeap y) m
+  have hdim := daysInMonth_bounds y m
+  unfold fixedInstance
+  by_cases hv : dd ≤ daysInMonth y m
+  · rw [if_pos hv]; unfold ymdRaw; omega
+  · rw [if_neg hv]
+    cases after <;> simp only [if_true, Bool.false_eq_true, if_false] <;> unfold ymdRaw <;> omega
+
+/-- every instance of the date on year `k` lies between `yearStart k + posLo` and `yearStart k + posHi`
+(`yearStart k` = the day before Jan 1): a fixed date moves by the leap day and by clamping
+(`Feb 31` → Feb 28 … Mar 1), Easter between Mar 22 and Apr 25 -/
+def posLo : DateSpec → Int
+  | .fixed _ m dd => monthStart false m + dd - 3
+  | .easter _ => 81
+
+def posHi : DateSpec → Int
+  | .fixed _ m dd => monthStart false m + dd + 1
+  | .easter _ => 116
+
+theorem pos_width (ds : DateSpec) : posHi ds - posLo ds ≤ 35 := by
+  cases ds <;> simp only [posLo, posHi] <;> omega
+
+theorem pos_range (ds : DateSpec) (hwf : ds.wf = true) : -2 ≤ posLo ds ∧ posHi ds ≤ 397 := by
+  cases ds with
+  | easter yr => simp [posLo, posHi]
+  | fixed yr m dd =>
+    simp only [DateSpec.wf, Bool.and_eq_true, decide_eq_true_eq] at hwf
+    obtain ⟨⟨⟨⟨_, hm1⟩, hm2⟩, hd1⟩, hd2⟩ := hwf
+    have := monthStart_false_range m
+    simp only [posLo, posHi]
+    omega
+
+theorem inst_pos (ds : DateSpec) (hwf : ds.wf = true) (hyl : specYear ds = none) (k : Int)
+    (hk : 0 ≤ k ∧ k ≤ 20000) (after : Bool) (p : Int) (hp : dateInstance ds k after = some p) :
+    yearStart k + posLo ds ≤ p ∧ p ≤ yearStart k + posHi ds := by
+  cases ds with
+  | easter yr =>
+    obtain ⟨d, he, _, lo, hi, _⟩ := easter_spec k hk.1 (by unfold maxYear; omega)
+    simp only [dateInstance, he] at hp
+    split at hp
+    · cases hp
+      have h3 := monthStart_mar k
+      have h4 := monthStart_apr k
+      have hl := yearLen_cases k
+      simp only [posLo, posHi]
+      unfold ymdRaw at lo hi
+      omega
+    · cases hp
+  | fixed yr m dd =>
+    cases yr with
+    | some n => simp [specYear] at hyl
+    | none =>
+      simp only [DateSpec.wf, Bool.and_eq_true, decide_eq_true_eq] at hwf
+      obtain ⟨⟨⟨⟨_, hm1⟩, hm2⟩, hd1⟩, hd2⟩ := hwf
+      rw [dateInstance_fixed none k m dd after (Or.inl rfl) (by unfold minYear; omega) (by unfold maxYear; omega)
+        hm1 hm2 hd1 hd2] at hp
+      cases hp
+      have := fixedInstance_pos k m dd after hd2
+      simp only [posLo, posHi]
+      omega
+
+/-- position range of the SHIFTED instances (day offset, and up to 6 days of weekday shift) -/
+def shiftLo (ds : DateSpec) (o : DateOffset) : Int := posLo ds + o.days - 6
+def shiftHi (ds : DateSpec) (o : DateOffset) : Int := posHi ds + o.days + 6
+
+theorem projT_pos {ds : DateSpec} {o : DateOffset} (h : BoundOK ds o) (hyl : specYear ds = none)
+    (after : Bool) (k : Int) (hk : 0 ≤ k ∧ k ≤ 20000) :
+    yearStart k + shiftLo ds o ≤ projT ds o after k ∧ projT ds o after k ≤ yearStart k + shiftHi ds o := by
+  obtain ⟨P, hP⟩ := proj_some_yearless ds o after h.wf hyl k hk
+  obtain ⟨p, hp, rfl⟩ := proj_eq_some hP
+  have a := inst_pos ds h.wf hyl k hk after p hp
+  have b := inst_shift_bounds h hk hp
+  simp only [projT, hP, Option.getD_some, shiftLo, shiftHi]
+  omega
+
+/-- the shifted instances of a yearless bound increase from each year to the next -/
+theorem projT_stepMono {ds : DateSpec} {o : DateOffset} (h : BoundOK ds o) (hyl : specYear ds = none)
+    (after : Bool) : StepMono (projT ds o after) 0 20000 := by
+  intro k h1 h2
+  have p1 := projT_pos h hyl after k ⟨h1, by omega⟩
+  have p2 := projT_pos h hyl after (k + 1) ⟨by omega, by omega⟩
+  have := yearStart_step k (k + 1) rfl
+  have := pos_width ds
+  simp only [shiftLo, shiftHi] at *
+  omega
+
+/-- `a` being the year of `d - offset`, the instances of the years up to `a - 2` are shifted before `d` … -/
+theorem projT_lt_of_year {ds : DateSpec} {o : DateOffset} (h : BoundOK ds o) (hyl : specYear ds = none)
+    (after : Bool) (d a k : Int) (ha : InY a (d - o.days)) (hk : 0 ≤ k ∧ k ≤ 20000) (hka : k + 2 ≤ a) :
+    projT ds o after k < d := by
+  have p := projT_pos h hyl after k hk
+  have r := pos_range ds h.wf
+  have s1 := yearStart_step k (k + 1) rfl
+  have s2 := yearStart_step (k + 1) (k + 2) (by omega)
+  have := yearStart_le (a := k + 2) (b := a) hka
+  unfold InY at ha
+  simp only [shiftLo, shiftHi] at *
+  omega
+
+/-- … and the instances of the years from `a + 2` on are shifted after `d` -/
+theorem lt_projT_of_year {ds : DateSpec} {o : DateOffset} (h : BoundOK ds o) (hyl : specYear ds = none)
+    (after : Bool) (d a k : Int) (ha : InY a (d - o.days)) (hk : 0 ≤ k ∧ k ≤ 20000) (hka : a + 2 ≤ k) :
+    d < projT ds o after k := by
+  have p := projT_pos h hyl after k hk
+  have r := pos_range ds h.wf
+  have s1 := yearStart_step (a + 1) (a + 2) (by omega)
+  have := yearStart_le (a := a + 2) (b := k) hka
+  unfold InY at ha
+  simp only [shiftLo, shiftHi] at *
+  omega
+
+/-- the centre of the implementation's windows: without saturation, the year of `d - offset` -/
+theorem yearBeforeOffset_eq (d : Int) (o : DateOffset) (hs : -100000 ≤ o.days ∧ o.days ≤ 100000)
+    (hd : -90000000 ≤ d ∧ d ≤ 90000000) : yearBeforeOffset d o = year (d - o.days) := by
+  unfold yearBeforeOffset
+  have e : satNeg o.days = -o.days := by unfold satNeg; rw [if_neg (by omega)]
+  rw [e, addDaysSat_eq (by omega) (by rw [minDay_eq]; omega) (by rw [maxDay_eq]; omega)]
+  congr 1
+
+theorem window_days {d : Int} (h1 : dateStart - 1 ≤ d) (h2 : d < dateEnd) : 693595 ≤ d ∧ d ≤ 3652059 := by
+  rw [dateStart_eq] at h1; rw [dateEnd_eq] at h2; omega
+
+/-- the year of `d - offset` is within `|offset| / 365 + 1` years of the year of `d` -/
+theorem year_sub_near (d n : Int) :
+    year (d - n) - year d ≤ n.natAbs / 365 + 1 ∧ year d - year (d - n) ≤ n.natAbs / 365 + 1 :=
+  year_dist (inY_year (d - n)) (inY_year d) n.natAbs (by omega) (by omega)
+
+/-- declarative reading of `datedOk` for two yearless bounds: the pairing on the candidate years -/
+theorem datedOk_yearless_iff (s : DateSpec) (so : DateOffset) (e : DateSpec) (eo : DateOffset) (d : Int)
     (hs : BoundOK s so) (he : BoundOK e eo) (hsy : specYear s = none) (hey : specYear e = none)
-    (hns : ¬ (s = e ∧ isFixedDate s = true)) (h1 : dateStart - 1 ≤ d) (h2 : d < dateEnd)
-    (hW : WindowOK (projT s so true) (projT e eo false) (year d) d (yearSpan so eo)) :
-    MonthdayRange.filter (.date s so e eo) d = .ok (datedOk s so e eo d) := by
+    (hns : ¬ (s = e ∧ isFixedDate s = true)) (h1 : dateStart - 1 ≤ d) (h2 : d < dateEnd) :
+    datedOk s so e eo d = true ↔
+      OpenOn (projT s so true) (projT e eo false) (year d - yearSpan so eo) (year d + yearSpan so eo)
+        (year d - yearSpan so eo) (year d + yearSpan so eo) d := by
   have hy : 1899 ≤ year d ∧ year d ≤ 9999 := year_window h1 h2
   have hw := yearSpan_bounds so eo hs.small he.small
-  generalize hwdef : yearSpan so eo = w at *
-  generalize hydef : year d = y at *
-  -- total projections
-  generalize hSdef : projT s so true = S at hW
-  generalize hEdef : projT e eo false = E at hW
-  have pS : ∀ k, y - w ≤ k → k ≤ y + w → proj s so true k = some (S k) := by
-    intro k hk1 hk2
-    obtain ⟨p, hp⟩ := proj_some_yearless s so true hs.wf hsy k (by omega)
-    simp only [← hSdef, projT, hp, Option.getD_some]
-  have pE : ∀ k, y - w ≤ k → k ≤ y + w → proj e eo false k = some (E k) := by
-    intro k hk1 hk2
-    obtain ⟨p, hp⟩ := proj_some_yearless e eo false he.wf hey k (by omega)
-    simp only [← hEdef, projT, hp, Option.getD_some]
-  -- the model
-  have hys : ∀ k ∈ [y - 2, y - 1, y, y + 1, y + 2], (0 ≤ k ∧ k ≤ 20000) := by
-    intro k hk; simp only [List.mem_cons, List.not_mem_nil, or_false] at hk; omega
-  have b1 : boundsOn s so true (yearsAround (year d) 2 2)
-      = .ok [S (y - 2), S (y - 1), S y, S (y + 1), S (y + 2)] := by
-    rw [hydef, yearsAround_2_2, boundsOn_eq hs true _ (fun k hk => ⟨hys k hk, Or.inl hsy⟩)]
-    simp only [List.filterMap_cons, List.filterMap_nil, pS (y - 2) (by omega) (by omega),
-      pS (y - 1) (by omega) (by omega), pS y (by omega) (by omega), pS (y + 1) (by omega) (by omega),
-      pS (y + 2) (by omega) (by omega)]
-  have b2 : boundsOn e eo false (yearsAround (year d) 2 2)
-      = .ok [E (y - 2), E (y - 1), E y, E (y + 1), E (y + 2)] := by
-    rw [hydef, yearsAround_2_2, boundsOn_eq he false _ (fun k hk => ⟨hys k hk, Or.inl hey⟩)]
-    simp only [List.filterMap_cons, List.filterMap_nil, pE (y - 2) (by omega) (by omega),
-      pE (y - 1) (by omega) (by omega), pE y (by omega) (by omega), pE (y + 1) (by omega) (by omega),
-      pE (y + 2) (by omega) (by omega)]
-  rw [filter_generic s so e eo d hsy hns _ _ b1 b2]
-  congr 1
-  rw [Bool.eq_iff_iff]
-  have sorted5 : ∀ (F : Int → Int), (∀ k, y - w ≤ k → k < y + w → F k < F (k + 1)) →
-      [F (y - 2), F (y - 1), F y, F (y + 1), F (y + 2)].Pairwise (· < ·) := by
-    intro F mF
-    have a := mF (y - 2) (by omega) (by omega)
-    have b := mF (y - 1) (by omega) (by omega)
-    have c := mF y (by omega) (by omega)
-    have d' := mF (y + 1) (by omega) (by omega)
-    rw [show y - 2 + 1 = y - 1 by omega] at a
-    rw [show y - 1 + 1 = y by omega] at b
-    rw [show y + 1 + 1 = y + 2 by omega] at d'
-    simp only [List.pairwise_cons, List.mem_cons, List.not_mem_nil, or_false, forall_eq_or_imp, forall_eq,
-      false_imp_iff, implies_true, List.Pairwise.nil, and_true]
-    omega
-  have sortS := sorted5 S hW.monoS
-  have sortE := sorted5 E hW.monoE
-  rw [isOpen_intervalsFromBounds' _ _ d sortS sortE (Or.inr ⟨S (y + 2), by simp, hW.w1⟩) (by omega),
-    window_pair_iff S E y d w (by omega) hW, datedOk_range_iff s so e eo d hns]
-  -- the specification
-  have cand : ∀ k, k ∈ candidateYears s e (yearSpan so eo) d ↔ y - w ≤ k ∧ k ≤ y + w := by
-    intro k; rw [candidateYears_yearless s e _ d hsy hey, mem_yearsNear, hwdef, hydef]
+  rw [datedOk_range_iff s so e eo d hns]
+  have cand : ∀ k, k ∈ candidateYears s e (yearSpan so eo) d ↔
+      year d - yearSpan so eo ≤ k ∧ k ≤ year d + yearSpan so eo := by
+    intro k; rw [candidateYears_yearless s e _ d hsy hey, mem_yearsNear]
+  have pS : ∀ k, year d - yearSpan so eo ≤ k → k ≤ year d + yearSpan so eo →
+      proj s so true k = some (projT s so true k) :=
+    fun k a b => proj_eq_projT s so true hs.wf hsy k (by omega)
+  have pE : ∀ k, year d - yearSpan so eo ≤ k → k ≤ year d + yearSpan so eo →
+      proj e eo false k = some (projT e eo false k) :=
+    fun k a b => proj_eq_projT e eo false he.wf hey k (by omega)
   simp only [hey, ne_eq, not_true_eq_false, false_imp_iff, and_true]
+  unfold OpenOn
   constructor
-  · rintro ⟨k, hk1, hk2, hle, hno⟩
-    refine ⟨S k, mem_specStarts.2 ⟨k, (cand k).2 ⟨hk1, hk2⟩, ?_⟩, hle, ?_⟩
-    · have := pS k hk1 hk2
-      unfold proj at this
-      rw [Option.map_eq_some_iff] at this
-      obtain ⟨p, hp, hpe⟩ := this
-      exact ⟨p, hp, hpe.symm⟩
-    · intro x hx
-      obtain ⟨j, hj, p, hp, rfl⟩ := mem_specEnds.1 hx
-      have hj' := (cand j).1 hj
-      have := pE j hj'.1 hj'.2
-      simp only [proj, hp, Option.map_some, Option.some.injEq] at this
-      rw [this]; exact hno j hj'.1 hj'.2
   · rintro ⟨s0, hs0, hle, hno⟩
     obtain ⟨k, hk, p, hp, rfl⟩ := mem_specStarts.1 hs0
     have hk' := (cand k).1 hk
@@ -403,6 +517,113 @@ theorem dated_yearless_eq (s : DateSpec) (so : DateOffset) (e : DateSpec) (eo : 
     obtain ⟨q, hq, hqe⟩ := ej
     rw [← ek, ← hqe]
     exact hno _ (mem_specEnds.2 ⟨j, (cand j).2 ⟨hj1, hj2⟩, q, hq, rfl⟩)
+  · rintro ⟨k, hk1, hk2, hle, hno⟩
+    refine ⟨projT s so true k, mem_specStarts.2 ⟨k, (cand k).2 ⟨hk1, hk2⟩, ?_⟩, hle, ?_⟩
+    · have := pS k hk1 hk2
+      unfold proj at this
+      rw [Option.map_eq_some_iff] at this
+      obtain ⟨p, hp, hpe⟩ := this
+      exact ⟨p, hp, hpe.symm⟩
+    · intro x hx
+      obtain ⟨j, hj, p, hp, rfl⟩ := mem_specEnds.1 hx
+      have hj' := (cand j).1 hj
+      have := pE j hj'.1 hj'.2
+      simp only [proj, hp, Option.map_some, Option.some.injEq] at this
+      rw [this]; exact hno j hj'.1 hj'.2
+
+/-- THE WINDOW THEOREM.  Two yearless bounds (not a single fixed day), day offsets within ±100 000 days,
+any day of 1899-12-31 … 9999-12-31: pairing the starts of the years `a1 … a1+na-1` with the ends of the
+years `b1 … b1+nb-1` selects `d` iff the specification does — for ANY two runs of years such that the
+first reaches two years below and two years above the year of `d - start offset`, the second two years
+below and above the year of `d - end offset`.  (The filter takes exactly these five years on each side,
+the hint thirteen.) -/
+theorem dated_window_eq (s : DateSpec) (so : DateOffset) (e : DateSpec) (eo : DateOffset) (d : Int)
+    (hs : BoundOK s so) (he : BoundOK e eo) (hsy : specYear s = none) (hey : specYear e = none)
+    (hns : ¬ (s = e ∧ isFixedDate s = true)) (h1 : dateStart - 1 ≤ d) (h2 : d < dateEnd)
+    (a1 : Int) (na : Nat) (b1 : Int) (nb : Nat)
+    (ha : 0 ≤ a1 ∧ a1 + na ≤ 20001) (hb : 0 ≤ b1 ∧ b1 + nb ≤ 20001)
+    (ha1 : a1 + 2 ≤ year (d - so.days)) (ha2 : year (d - so.days) + 2 ≤ a1 + na - 1)
+    (hb1 : b1 + 2 ≤ year (d - eo.days)) (hb2 : year (d - eo.days) + 2 ≤ b1 + nb - 1) :
+    isOpenFromIntervals d (intervalsFromBounds ((yearRun a1 na).filterMap (proj s so true))
+      ((yearRun b1 nb).filterMap (proj e eo false))) = datedOk s so e eo d := by
+  have hy : 1899 ≤ year d ∧ year d ≤ 9999 := year_window h1 h2
+  have hw := yearSpan_bounds so eo hs.small he.small
+  have hwdef : yearSpan so eo = 3 + (so.days.natAbs + eo.days.natAbs) / 365 := rfl
+  have nS := year_sub_near d so.days
+  have nE := year_sub_near d eo.days
+  have hss := hs.small
+  have hes := he.small
+  have iS : InY (year (d - so.days)) (d - so.days) := inY_year _
+  have iE : InY (year (d - eo.days)) (d - eo.days) := inY_year _
+  generalize year (d - so.days) = ys at *
+  generalize year (d - eo.days) = ye at *
+  have mS := projT_stepMono hs hsy true
+  have mE := projT_stepMono he hey false
+  generalize hSdef : projT s so true = S at *
+  generalize hEdef : projT e eo false = E at *
+  have pS : ∀ k, 0 ≤ k → k ≤ 20000 → proj s so true k = some (S k) := by
+    intro k a b; rw [← hSdef]; exact proj_eq_projT s so true hs.wf hsy k ⟨a, b⟩
+  have pE : ∀ k, 0 ≤ k → k ≤ 20000 → proj e eo false k = some (E k) := by
+    intro k a b; rw [← hEdef]; exact proj_eq_projT e eo false he.wf hey k ⟨a, b⟩
+  have ltS : ∀ k, 0 ≤ k → k ≤ 20000 → k + 2 ≤ ys → S k < d := by
+    intro k a b c; rw [← hSdef]; exact projT_lt_of_year hs hsy true d ys k iS ⟨a, b⟩ c
+  have gtS : ∀ k, 0 ≤ k → k ≤ 20000 → ys + 2 ≤ k → d < S k := by
+    intro k a b c; rw [← hSdef]; exact lt_projT_of_year hs hsy true d ys k iS ⟨a, b⟩ c
+  have ltE : ∀ k, 0 ≤ k → k ≤ 20000 → k + 2 ≤ ye → E k < d := by
+    intro k a b c; rw [← hEdef]; exact projT_lt_of_year he hey false d ye k iE ⟨a, b⟩ c
+  have gtE : ∀ k, 0 ≤ k → k ≤ 20000 → ye + 2 ≤ k → d < E k := by
+    intro k a b c; rw [← hEdef]; exact lt_projT_of_year he hey false d ye k iE ⟨a, b⟩ c
+  rw [run_filterMap _ S a1 na (fun k a b => pS k (by omega) (by omega)),
+    run_filterMap _ E b1 nb (fun k a b => pE k (by omega) (by omega))]
+  have sortS := run_map_sorted S 0 20000 a1 na mS (by omega) (by omega)
+  have sortE := run_map_sorted E 0 20000 b1 nb mE (by omega) (by omega)
+  have hlast : d < S (a1 + na - 1) := gtS _ (by omega) (by omega) (by omega)
+  rw [Bool.eq_iff_iff, isOpen_intervalsFromBounds' _ _ d sortS sortE
+    (Or.inr ⟨S (a1 + na - 1), List.mem_map.2 ⟨a1 + na - 1, (mem_yearRun _ _ _).2 ⟨by omega, by omega⟩, rfl⟩, hlast⟩)
+    (by omega),
+    pairSpec_run S E a1 na b1 nb d (by omega) hlast,
+    openOn_widen S E 0 20000 a1 (a1 + na - 1) b1 (b1 + nb - 1) d mS mE (by omega) (by omega)
+      ⟨by have := ltS a1 (by omega) (by omega) (by omega); omega, hlast,
+        ltE b1 (by omega) (by omega) (by omega),
+        by have := gtE (b1 + nb - 1) (by omega) (by omega) (by omega); omega⟩,
+    datedOk_yearless_iff s so e eo d hs he hsy hey hns h1 h2, hSdef, hEdef]
+  generalize yearSpan so eo = w at *
+  generalize year d = y at *
+  exact (openOn_widen S E 0 20000 (y - w) (y + w) (y - w) (y + w) d mS mE (by omega) (by omega)
+    ⟨by have := ltS (y - w) (by omega) (by omega) (by omega); omega,
+      gtS (y + w) (by omega) (by omega) (by omega),
+      ltE (y - w) (by omega) (by omega) (by omega),
+      by have := gtE (y + w) (by omega) (by omega) (by omega); omega⟩).symm
+
+/-- Class (c): a dated range whose two bounds carry no year (and that is not a single fixed day):
+the model's filter is the specification's `datedOk` on EVERY day of 1899-12-31 … 9999-12-31, whatever
+the offsets within ±100 000 days. -/
+theorem dated_yearless_eq (s : DateSpec) (so : DateOffset) (e : DateSpec) (eo : DateOffset) (d : Int)
+    (hs : BoundOK s so) (he : BoundOK e eo) (hsy : specYear s = none) (hey : specYear e = none)
+    (hns : ¬ (s = e ∧ isFixedDate s = true)) (h1 : dateStart - 1 ≤ d) (h2 : d < dateEnd) :
+    MonthdayRange.filter (.date s so e eo) d = .ok (datedOk s so e eo d) := by
+  have hy : 1899 ≤ year d ∧ year d ≤ 9999 := year_window h1 h2
+  have hdw := window_days h1 h2
+  have nS := year_sub_near d so.days
+  have nE := year_sub_near d eo.days
+  have hss := hs.small
+  have hes := he.small
+  have eS := yearBeforeOffset_eq d so hs.small (by omega)
+  have eE := yearBeforeOffset_eq d eo he.small (by omega)
+  have b1 : boundsOn s so true (yearsAround (yearBeforeOffset d so) 2 2)
+      = .ok ((yearRun (year (d - so.days) - 2) 5).filterMap (proj s so true)) := by
+    rw [eS, yearsAround_eq_run, boundsOn_eq hs true _ (fun k hk => by
+      rw [mem_yearRun] at hk; exact ⟨by omega, Or.inl hsy⟩)]
+    rfl
+  have b2 : boundsOn e eo false (yearsAround (yearBeforeOffset d eo) 2 2)
+      = .ok ((yearRun (year (d - eo.days) - 2) 5).filterMap (proj e eo false)) := by
+    rw [eE, yearsAround_eq_run, boundsOn_eq he false _ (fun k hk => by
+      rw [mem_yearRun] at hk; exact ⟨by omega, Or.inl hey⟩)]
+    rfl
+  rw [filter_generic s so e eo d hsy hns _ _ b1 b2]
+  congr 1
+  exact dated_window_eq s so e eo d hs he hsy hey hns h1 h2 _ 5 _ 5 (by omega) (by omega)
+    (by omega) (by omega) (by omega) (by omega)
 
 /-! ### class (b): a single fixed day without a year (`Dec 25`, `Feb 29`, `May 1 -1 day-May 1 +2 days`) -/
 
@@ -433,68 +654,39 @@ def ivContains (d : Int) : Option (Int × Int) → Bool
   | none => false
   | some r => decide (r.1 ≤ d) && decide (d ≤ r.2)
 
-/-- first interval of the three years around `d` that ends at or after `d`: it contains `d` iff the
-interval of `d`'s own year does — provided the shifted bounds stay inside their years -/
-theorem single_find_iff (F : Int → Option (Int × Int)) (y d : Int) (hd : InY y d)
-    (hF : ∀ k, (k = y - 1 ∨ k = y ∨ k = y + 1) → ∀ r, F k = some r → InY k r.1 ∧ InY k r.2) :
-    ivContains d (([y - 1, y, y + 1].filterMap F).find? (fun r => decide (r.2 ≥ d))) = true
-      ↔ ∃ r, F y = some r ∧ r.1 ≤ d ∧ d ≤ r.2 := by
-  have h1 := hF (y - 1) (by omega)
-  have h2 := hF y (by omega)
-  have h3 := hF (y + 1) (by omega)
-  -- the interval of year y-1 ends before d, the interval of year y+1 starts after d
-  have skip1 : ∀ r, F (y - 1) = some r → decide (r.2 ≥ d) = false := by
-    intro r hr; have := inY_lt (show y - 1 < y by omega) (h1 r hr).2 hd
-    simp only [ge_iff_le, decide_eq_false_iff_not]; omega
-  have last : ∀ r, F (y + 1) = some r → decide (r.2 ≥ d) = true ∧ ¬ r.1 ≤ d := by
-    intro r hr
-    have a := inY_lt (show y < y + 1 by omega) hd (h3 r hr).2
-    have b := inY_lt (show y < y + 1 by omega) hd (h3 r hr).1
-    simp only [ge_iff_le, decide_eq_true_eq]; omega
-  simp only [List.filterMap_cons, List.filterMap_nil]
-  unfold ivContains
-  cases e1 : F (y - 1) with
-  | none =>
-    cases e2 : F y with
-    | none =>
-      cases e3 : F (y + 1) with
-      | none => simp
-      | some r3 => have := last r3 e3; simp [this.1, this.2]
-    | some r2 =>
-      by_cases hge : r2.2 ≥ d
-      · simp [hge]
-      · cases e3 : F (y + 1) with
-        | none => simp [hge]
-        | some r3 =>
-          have := last r3 e3
-          simp only [List.find?_cons, hge, decide_false, this.1]
-          simp only [this.2, decide_false, Bool.false_and, Bool.false_eq_true, Option.some.injEq,
-            exists_eq_left', false_iff, not_and, Int.not_le]
-          intro _; omega
-  | some r1 =>
-    have s1 := skip1 r1 e1
-    cases e2 : F y with
-    | none =>
-      cases e3 : F (y + 1) with
-      | none => simp [s1]
-      | some r3 => have := last r3 e3; simp [s1, this.1, this.2]
-    | some r2 =>
-      by_cases hge : r2.2 ≥ d
-      · simp [s1, hge]
-      · cases e3 : F (y + 1) with
-        | none => simp [s1, hge]
-        | some r3 =>
-          have := last r3 e3
-          simp only [List.find?_cons, s1, hge, decide_false, this.1]
-          simp only [this.2, decide_false, Bool.false_and, Bool.false_eq_true, Option.some.injEq,
-            exists_eq_left', false_iff, not_and, Int.not_le]
-          intro _; omega
+/-- the first interval that ends at or after `d` contains `d` iff some interval does, when the
+intervals start in increasing order -/
+theorem find_contains_iff (G : List (Int × Int)) (d : Int) (hs : G.Pairwise (fun r r' => r.1 ≤ r'.1)) :
+    ivContains d (G.find? (fun r => decide (r.2 ≥ d))) = true ↔ ∃ r ∈ G, r.1 ≤ d ∧ d ≤ r.2 := by
+  induction G with
+  | nil => simp [ivContains]
+  | cons x xs ih =>
+    rw [List.pairwise_cons] at hs
+    simp only [List.find?_cons]
+    by_cases hx : x.2 ≥ d
+    · rw [show decide (x.2 ≥ d) = true from decide_eq_true hx]
+      simp only [ivContains, Bool.and_eq_true, decide_eq_true_eq]
+      constructor
+      · intro h; exact ⟨x, by simp, h.1, h.2⟩
+      · rintro ⟨r, hr, h1, h2⟩
+        rcases List.mem_cons.1 hr with rfl | hr'
+        · exact ⟨h1, h2⟩
+        · have := hs.1 r hr'; exact ⟨by omega, hx⟩
+    · rw [show decide (x.2 ≥ d) = false from decide_eq_false hx]
+      simp only []
+      rw [ih hs.2]
+      constructor
+      · rintro ⟨r, hr, h⟩; exact ⟨r, by simp [hr], h⟩
+      · rintro ⟨r, hr, h1, h2⟩
+        rcases List.mem_cons.1 hr with rfl | hr'
+        · omega
+        · exact ⟨r, hr', h1, h2⟩
 
 /-- `MonthdayRange::Date::filter` on a single fixed day (with or without a year) -/
 theorem filter_single (fy : Option Nat) (m dd : Nat) (so eo : DateOffset) (d : Int)
     (res : Option (Int × Int))
     (h : singleDayFind m dd so eo d
-      (match fy with | some fy => [(fy : Int)] | none => yearsAround (year d) 1 1) = .ok res) :
+      (match fy with | some fy => [(fy : Int)] | none => yearsAround (yearBeforeOffset d eo) 1 8) = .ok res) :
     MonthdayRange.filter (.date (.fixed fy m dd) so (.fixed fy m dd) eo) d = .ok (ivContains d res) := by
   unfold MonthdayRange.filter
   simp only [beq_self_eq_true]
@@ -508,60 +700,196 @@ theorem filter_single (fy : Option Nat) (m dd : Nat) (so eo : DateOffset) (d : I
     simp only [h, ok_bind]
     cases res <;> rfl
 
-/-- every existing instance of the day `m/dd` on the years `y-w … y+w`, shifted, stays in its year -/
-def DayStaysInYear (m dd : Nat) (o : DateOffset) (y : Int) (w : Nat) : Prop :=
-  ∀ k, y - w ≤ k → k ≤ y + w → ∀ f, ofYmd? k m dd = some f → InY k (shift o f)
+/-- position of an existing occurrence of the day `m/dd` inside its year -/
+theorem day_pos {k : Int} {m dd : Nat} {f : Int} (h : ofYmd? k m dd = some f) :
+    (minYear ≤ k ∧ k ≤ maxYear) ∧ yearStart k + monthStart false m + dd ≤ f ∧
+      f ≤ yearStart k + monthStart false m + dd + 1 ∧ yearStart k < f ∧ f ≤ yearStart (k + 1) := by
+  obtain ⟨k1, k2, v, rfl⟩ := ofYmd?_eq_some_iff.1 h
+  have b := ymdRaw_bounds v
+  have := monthStart_leap_bounds (isLeap k) m
+  rw [yearStart_succ]
+  refine ⟨⟨k1, k2⟩, ?_, ?_, b.1, b.2⟩ <;> unfold ymdRaw <;> omega
 
-/-- Class (b): a single fixed day without a year. -/
+/-- among eight consecutive years one is a leap year -/
+theorem leap_in_8 (a : Int) : ∃ L, a ≤ L ∧ L ≤ a + 7 ∧ isLeap L = true := by
+  have key : ∀ x : Int, x % 4 = 0 → isLeap x = true ∨ isLeap (x + 4) = true := by
+    intro x hx
+    simp only [isLeap_iff]
+    omega
+  -- the first multiple of four from `a` on
+  obtain ⟨x, hx1, hx2, hx3⟩ : ∃ x : Int, a ≤ x ∧ x ≤ a + 3 ∧ x % 4 = 0 :=
+    ⟨a + (4 - a % 4) % 4, by omega, by omega, by omega⟩
+  rcases key x hx3 with h | h
+  · exact ⟨x, hx1, by omega, h⟩
+  · exact ⟨x + 4, by omega, by omega, h⟩
+
+/-- a day that exists on some year exists on one of any eight consecutive years — and not in the first
+31 days of the first of them: every year for most days, every leap year for February 29th -/
+theorem day_exists_late (m dd : Nat) (k0 f0 : Int) (h0 : ofYmd? k0 m dd = some f0) (a : Int)
+    (ha : minYear ≤ a ∧ a + 7 ≤ maxYear) :
+    ∃ k f, a ≤ k ∧ k ≤ a + 7 ∧ ofYmd? k m dd = some f ∧ yearStart a + 32 ≤ f := by
+  obtain ⟨_, _, v0, _⟩ := ofYmd?_eq_some_iff.1 h0
+  obtain ⟨m1, m2, d1, d2⟩ := v0
+  by_cases hv : dd ≤ daysInMonth (a + 1) m
+  · -- the day exists on the second year
+    have v : ValidYmd (a + 1) m dd := ⟨m1, m2, d1, hv⟩
+    refine ⟨a + 1, _, by omega, by omega, ofYmd?_of_valid (by omega) (by omega) v, ?_⟩
+    have := (ymdRaw_bounds v).1
+    have := yearStart_step a (a + 1) rfl
+    omega
+  · -- February 29th
+    have hm : m = 2 := by
+      unfold daysInMonth at hv d2
+      split at hv <;> split at d2 <;> first | omega | rfl | skip
+      all_goals simp_all
+    subst hm
+    have hdd : dd = 29 := by
+      have a1 := daysInMonth_bounds k0 2
+      have a2 := daysInMonth_bounds (a + 1) 2
+      unfold daysInMonth at hv d2 a1 a2
+      simp only [] at hv d2 a1 a2
+      split at hv <;> split at d2 <;> omega
+    subst hdd
+    obtain ⟨L, hL1, hL2, hL⟩ := leap_in_8 a
+    have v : ValidYmd L 2 29 := ⟨by omega, by omega, by omega, by simp [daysInMonth, hL]⟩
+    refine ⟨L, _, hL1, hL2, ofYmd?_of_valid (by omega) (by omega) v, ?_⟩
+    have := yearStart_le (a := a) (b := L) hL1
+    unfold ymdRaw
+    simp only [monthStart]
+    omega
+
+/-- declarative reading of `datedOk` for a single fixed day without a year -/
+theorem datedOk_single_iff (m dd : Nat) (so eo : DateOffset) (d : Int) :
+    datedOk (.fixed none m dd) so (.fixed none m dd) eo d = true ↔
+      ∃ k, year d - yearSpan so eo ≤ k ∧ k ≤ year d + yearSpan so eo ∧
+        ∃ f, ofYmd? k m dd = some f ∧ shift so f ≤ d ∧ d ≤ shift eo f := by
+  unfold datedOk
+  simp only [isFixedDate, and_self, if_true]
+  rw [candidateYears_yearless _ _ _ d rfl rfl]
+  simp only [List.any_eq_true, mem_yearsNear, exactInstance, Option.isNone_none, true_or, if_true]
+  constructor
+  · rintro ⟨k, hk, hm⟩
+    cases hf : ofYmd? k m dd with
+    | none => simp [hf] at hm
+    | some f =>
+      simp only [hf, Bool.and_eq_true, decide_eq_true_eq] at hm
+      exact ⟨k, hk.1, hk.2, f, hf, hm.1, hm.2⟩
+  · rintro ⟨k, hk1, hk2, f, hf, h1, h2⟩
+    exact ⟨k, ⟨hk1, hk2⟩, by simp [hf, h1, h2]⟩
+
+/-- facts about the occurrences of a single day shifted by offsets within ±100 000 days, on the years
+0 … 20 000 -/
+structure SDFacts (m dd : Nat) (so eo : DateOffset) : Prop where
+  /-- the shifts do not saturate -/
+  sb : ∀ k f, 0 ≤ k → k ≤ 20000 → ofYmd? k m dd = some f →
+    (f + so.days - 6 ≤ shift so f ∧ shift so f ≤ f + so.days + 6) ∧
+    (f + eo.days - 6 ≤ shift eo f ∧ shift eo f ≤ f + eo.days + 6)
+  /-- occurrences of successive years are at least 364 days apart -/
+  gap : ∀ k f k' f', 0 ≤ k → k < k' → k' ≤ 20000 → ofYmd? k m dd = some f → ofYmd? k' m dd = some f' →
+    f + 364 ≤ f'
+
+theorem sdFacts (m dd : Nat) (so eo : DateOffset)
+    (hss : -100000 ≤ so.days ∧ so.days ≤ 100000) (hes : -100000 ≤ eo.days ∧ eo.days ≤ 100000) :
+    SDFacts m dd so eo := by
+  constructor
+  · intro k f k1 k2 hf
+    obtain ⟨_, _, _, p1, p2⟩ := day_pos hf
+    have := inYear_range ⟨k1, k2⟩ ⟨p1, p2⟩
+    exact ⟨shift_bounds so f (by omega) (by rw [minDay_eq]; omega) (by rw [maxDay_eq]; omega),
+      shift_bounds eo f (by omega) (by rw [minDay_eq]; omega) (by rw [maxDay_eq]; omega)⟩
+  · intro k f k' f' k1 kk k2 hf hf'
+    obtain ⟨_, a1, a2, _, _⟩ := day_pos hf
+    obtain ⟨_, b1, b2, _, _⟩ := day_pos hf'
+    have := yearStart_step k (k + 1) rfl
+    have := yearStart_le (a := k + 1) (b := k') (by omega)
+    omega
+
+/-- THE SINGLE-DAY WINDOW THEOREM.  `c` being the year of `d - end offset`: some occurrence of the years
+`c-1 … c-2+n` (`n ≥ 10`), shifted, contains `d` iff the specification selects `d`. -/
+theorem single_window_iff (m dd : Nat) (so eo : DateOffset) (d : Int)
+    (hss : -100000 ≤ so.days ∧ so.days ≤ 100000) (hes : -100000 ≤ eo.days ∧ eo.days ≤ 100000)
+    (h1 : dateStart - 1 ≤ d) (h2 : d < dateEnd) (n : Nat) (hn : 10 ≤ n ∧ n ≤ 100) :
+    (∃ r ∈ (yearRun (year (d - eo.days) - 1) n).filterMap (dayIv m dd so eo), r.1 ≤ d ∧ d ≤ r.2) ↔
+      datedOk (.fixed none m dd) so (.fixed none m dd) eo d = true := by
+  have hy : 1899 ≤ year d ∧ year d ≤ 9999 := year_window h1 h2
+  have hw := yearSpan_bounds so eo hss hes
+  have hwdef : yearSpan so eo = 3 + (so.days.natAbs + eo.days.natAbs) / 365 := rfl
+  have nE := year_sub_near d eo.days
+  have iE : InY (year (d - eo.days)) (d - eo.days) := inY_year _
+  have iD : InY (year d) d := inY_year d
+  have F := sdFacts m dd so eo hss hes
+  rw [datedOk_single_iff]
+  generalize year (d - eo.days) = c at *
+  generalize yearSpan so eo = w at *
+  generalize year d = y at *
+  simp only [List.mem_filterMap, mem_yearRun, dayIv, Option.map_eq_some_iff]
+  constructor
+  · rintro ⟨r, ⟨k, hk, f, hf, rfl⟩, hle, hge⟩
+    simp only at hle hge
+    obtain ⟨_, _, _, p1, p2⟩ := day_pos hf
+    have sb := F.sb k f (by omega) (by omega) hf
+    have := year_dist (a := k) (b := y) (p := f) (q := d) ⟨p1, p2⟩ iD (so.days.natAbs + eo.days.natAbs + 6)
+      (by omega) (by omega)
+    exact ⟨k, by omega, by omega, f, hf, hle, hge⟩
+  · rintro ⟨k, hk1, hk2, f, hf, hle, hge⟩
+    obtain ⟨_, _, _, p1, p2⟩ := day_pos hf
+    have sb := F.sb k f (by omega) (by omega) hf
+    -- the occurrence is not older than the year before `c`
+    have hkc : c - 1 ≤ k := by
+      by_cases h : k + 2 ≤ c
+      · have := yearStart_le (a := k + 2) (b := c) h
+        have := yearStart_step (k + 1) (k + 2) (by omega)
+        unfold InY at iE
+        omega
+      · omega
+    by_cases hk8 : k < c - 1 + n
+    · exact ⟨_, ⟨k, ⟨hkc, hk8⟩, f, hf, rfl⟩, hle, hge⟩
+    · -- a later occurrence: one of the years c+1 … c+8 does as well
+      obtain ⟨k1, f1, a1, a2, hf1, hlate⟩ := day_exists_late m dd k f hf (c + 1)
+        (by unfold minYear maxYear; omega)
+      have sb1 := F.sb k1 f1 (by omega) (by omega) hf1
+      have g := F.gap k1 f1 k f (by omega) (by omega) (by omega) hf1 hf
+      unfold InY at iE
+      exact ⟨_, ⟨k1, ⟨by omega, by omega⟩, f1, hf1, rfl⟩, by simp only; omega, by simp only; omega⟩
+
+/-- the shifted occurrences of a run of years start in increasing order -/
+theorem dayIv_sorted (m dd : Nat) (so eo : DateOffset)
+    (hss : -100000 ≤ so.days ∧ so.days ≤ 100000) (hes : -100000 ≤ eo.days ∧ eo.days ≤ 100000)
+    (a : Int) (n : Nat) (ha : 0 ≤ a ∧ a + n ≤ 20001) :
+    ((yearRun a n).filterMap (dayIv m dd so eo)).Pairwise (fun r r' => r.1 ≤ r'.1) := by
+  have F := sdFacts m dd so eo hss hes
+  unfold yearRun
+  rw [List.filterMap_map, List.pairwise_filterMap]
+  refine List.Pairwise.imp_of_mem ?_ (List.pairwise_lt_range (n := n))
+  intro i j hin hjn hij r hr r' hr'
+  simp only [List.mem_range] at hin hjn
+  simp only [Function.comp, dayIv, Option.map_eq_some_iff] at hr hr'
+  obtain ⟨f, hf, rfl⟩ := hr
+  obtain ⟨f', hf', rfl⟩ := hr'
+  have := F.sb (a + i) f (by omega) (by omega) hf
+  have := F.sb (a + j) f' (by omega) (by omega) hf'
+  have := F.gap (a + i) f (a + j) f' (by omega) (by omega) (by omega) hf hf'
+  simp only
+  omega
+
+/-- Class (b): a single fixed day without a year — every day of 1899-12-31 … 9999-12-31, any offsets
+within ±100 000 days. -/
 theorem dated_single_eq (m dd : Nat) (so eo : DateOffset) (d : Int)
     (hso : so.wday.wf = true) (hss : -100000 ≤ so.days ∧ so.days ≤ 100000)
     (heo : eo.wday.wf = true) (hes : -100000 ≤ eo.days ∧ eo.days ≤ 100000)
-    (h1 : dateStart - 1 ≤ d) (h2 : d < dateEnd)
-    (hS : DayStaysInYear m dd so (year d) (yearSpan so eo))
-    (hE : DayStaysInYear m dd eo (year d) (yearSpan so eo)) :
+    (h1 : dateStart - 1 ≤ d) (h2 : d < dateEnd) :
     MonthdayRange.filter (.date (.fixed none m dd) so (.fixed none m dd) eo) d
       = .ok (datedOk (.fixed none m dd) so (.fixed none m dd) eo d) := by
   have hy : 1899 ≤ year d ∧ year d ≤ 9999 := year_window h1 h2
-  have hw := yearSpan_bounds so eo hss hes
-  have hd : InY (year d) d := inY_year d
-  have hfind := singleDayFind_eq m dd so eo d hso heo [year d - 1, year d, year d + 1]
-  rw [filter_single none m dd so eo d _ (by simp only []; rw [yearsAround_1_1]; exact hfind)]
+  have hdw := window_days h1 h2
+  have nE := year_sub_near d eo.days
+  have eE := yearBeforeOffset_eq d eo hes (by omega)
+  have hfind := singleDayFind_eq m dd so eo d hso heo (yearRun (year (d - eo.days) - 1) 10)
+  rw [filter_single none m dd so eo d _ (by simp only []; rw [eE, yearsAround_eq_run]; exact hfind)]
   congr 1
-  have key := single_find_iff (dayIv m dd so eo) (year d) d hd (by
-    intro k hk r hr
-    unfold dayIv at hr
-    rw [Option.map_eq_some_iff] at hr
-    obtain ⟨f, hf, rfl⟩ := hr
-    exact ⟨hS k (by omega) (by omega) f hf, hE k (by omega) (by omega) f hf⟩)
-  have spec : datedOk (.fixed none m dd) so (.fixed none m dd) eo d = true ↔
-      ∃ r, dayIv m dd so eo (year d) = some r ∧ r.1 ≤ d ∧ d ≤ r.2 := by
-    unfold datedOk
-    simp only [isFixedDate, and_self, if_true]
-    rw [candidateYears_yearless _ _ _ d rfl rfl]
-    simp only [List.any_eq_true, mem_yearsNear, exactInstance, Option.isNone_none, true_or, if_true]
-    constructor
-    · rintro ⟨k, hk, hm⟩
-      cases hf : ofYmd? k m dd with
-      | none => simp [hf] at hm
-      | some f =>
-        simp only [hf, Bool.and_eq_true, decide_eq_true_eq] at hm
-        have a := hS k hk.1 hk.2 f hf
-        have b := hE k hk.1 hk.2 f hf
-        -- d lies between two days of year k, hence k is d's year
-        have : k = year d := by
-          by_cases hlt : k < year d
-          · have := inY_lt hlt b hd; omega
-          · by_cases hgt : year d < k
-            · have := inY_lt hgt hd a; omega
-            · omega
-        subst this
-        exact ⟨(shift so f, shift eo f), by simp [dayIv, hf], hm.1, hm.2⟩
-    · rintro ⟨r, hr, h1, h2⟩
-      unfold dayIv at hr
-      rw [Option.map_eq_some_iff] at hr
-      obtain ⟨f, hf, rfl⟩ := hr
-      exact ⟨year d, by omega, by simp [hf, h1, h2]⟩
-  rw [Bool.eq_iff_iff, key, spec]
+  rw [Bool.eq_iff_iff, find_contains_iff _ d (dayIv_sorted m dd so eo hss hes _ 10 (by omega)),
+    single_window_iff m dd so eo d hss hes h1 h2 10 (by omega)]
+
 
 /-- Class (b'): a single fixed day WITH a year (`2024 Dec 25`, `2021 Feb 29`, also with offsets on
 both sides): the day of that year, if it exists, and nothing else.  No condition at all: any day, any
